@@ -124,3 +124,69 @@ def crash_line(se):
             return l.strip()[:300]
     ls = [l for l in (se or "").splitlines() if l.strip()]
     return (ls[-1] if ls else "")[:300]
+
+
+# ---------------------------------------------------------------------------------------------
+# process history: every ordered pair (a, b) of representative cases in ONE probe process; the result line of b must be
+# identical to that of b alone in a fresh process (function-local statics, lazily initialised globals, thread-count state)
+# ---------------------------------------------------------------------------------------------
+def process_history(binary, reps, rep, what, ignore=("id",), env=None):
+    """reps: list of (name, line) with 'id=<name>' inside the line.  Reports through rep; returns a coverage dict."""
+    import re as _re
+
+    def relabel(line, new):
+        return _re.sub(r"\bid=\S+", "id=" + new, line, count=1)
+
+    singles = [("s%03d" % i, relabel(l, "s%03d" % i)) for i, (_, l) in enumerate(reps)]
+    fresh = run_cases(binary, singles, chunk=1, env=env)
+    jobs, meta = [], []
+    for i, (na, la) in enumerate(reps):
+        for j, (nb, lb) in enumerate(reps):
+            if i != j:
+                jobs.append((i, j))
+    # one probe process per ordered pair: two lines, chunk of 2
+    lines = []
+    for n, (i, j) in enumerate(jobs):
+        lines.append(("p%04da" % n, relabel(reps[i][1], "p%04da" % n)))
+        lines.append(("p%04db" % n, relabel(reps[j][1], "p%04db" % n)))
+    res = run_cases(binary, lines, chunk=2, env=env)
+    bad = 0
+    for n, (i, j) in enumerate(jobs):
+        f = fresh.get("s%03d" % j, {})
+        if f.get("status") != "ok":
+            continue   # b does not run alone: the main enumeration reports that
+        r = res.get("p%04db" % n, {"status": "crash"})
+        fa = {k: v for k, v in f.items() if k not in ignore and k != "stderr"}
+        ra = {k: v for k, v in r.items() if k not in ignore and k != "stderr"}
+        if fa != ra:
+            bad += 1
+            diff = sorted(k for k in set(fa) | set(ra) if fa.get(k) != ra.get(k))
+            rep.violation("process-history:%s" % what, "case [%s] gives a different result (fields %s) when the same process handled case "
+                          "[%s] before it than in a fresh process: %s vs %s" %
+                          (reps[j][0], diff[:6], reps[i][0], {k: ra.get(k) for k in diff[:4]}, {k: fa.get(k) for k in diff[:4]}),
+                          {"kind": "process-history", "first": reps[i][1], "second": reps[j][1]})
+    return {"process_history_representatives": len(reps), "process_history_ordered_pairs": len(jobs), "process_history_pairs_differing": bad}
+
+
+def replay_process_history(binary, rp, pid, path, ignore=("id",)):
+    import re as _re
+
+    def relabel(line, new):
+        return _re.sub(r"\bid=\S+", "id=" + new, line, count=1)
+
+    outs = []
+    for _ in range(2):
+        f = run_cases(binary, [("f", relabel(rp["second"], "f"))], chunk=1).get("f", {})
+        r = run_cases(binary, [("a", relabel(rp["first"], "a")), ("b", relabel(rp["second"], "b"))], chunk=2).get("b", {})
+        fa = {k: v for k, v in f.items() if k not in ignore and k != "stderr"}
+        ra = {k: v for k, v in r.items() if k not in ignore and k != "stderr"}
+        outs.append(sorted(k for k in set(fa) | set(ra) if fa.get(k) != ra.get(k)))
+    if outs[0] != outs[1]:
+        print("replay is not deterministic; refusing to report")
+        return 2
+    if outs[0]:
+        print("fields differing from the fresh process: %s" % outs[0])
+        print("VIOLATION property=%s replay=%s" % (pid, path))
+        return 1
+    print("replay: property held")
+    return 0
